@@ -106,6 +106,46 @@ func (x *Ex) genFuncsMore(body *LeanFile) {
 	// the scanning half of FindOutlink is what hook VerifNumberGroups repeats
 	x.bodyStmts(body, "internal/pagination", "PageNumberFinder", "FindOutlink", "numberFindOutlinkBody", "C16", "C17")
 	x.bodyStmts(body, "internal/pagination", "PrevNextFinder", "FindPagination", "prevNextFindPaginationBody", "C16", "C17")
+	// the article extractor: what Model/Filters.lean models, function by function
+	x.bodyGroup(body, "articleExtractorBodies", []string{"C01", "C02", "C03", "C09", "C15"}, [][3]string{
+		{"internal/extractor", "ArticleExtractor", "Extract"},
+		{"internal/filter/english", "TerminatingBlocksFinder", "Process"},
+		{"internal/filter/english", "NumWordsRulesClassifier", "Process"},
+		{"internal/filter/english", "NumWordsRulesClassifier", "classify"},
+		{"internal/filter/simple", "LabelToBoilerplate", "Process"},
+		{"internal/filter/simple", "BoilerplateBlock", "Process"},
+		{"internal/filter/heuristic", "SimilarSiblingContent", "Process"},
+		{"internal/filter/heuristic", "SimilarSiblingContent", "allowExpandFrom"},
+		{"internal/filter/heuristic", "SimilarSiblingContent", "allowExpandTo"},
+		{"internal/filter/heuristic", "SimilarSiblingContent", "isSimilarIndex"},
+		{"internal/filter/heuristic", "SimilarSiblingContent", "areSameTag"},
+		{"internal/filter/heuristic", "SimilarSiblingContent", "findCanonicalReps"},
+		{"internal/filter/heuristic", "HeadingFusion", "Process"},
+		{"internal/filter/heuristic", "BlockProximityFusion", "Process"},
+		{"internal/filter/heuristic", "KeepLargestBlock", "Process"},
+		{"internal/filter/heuristic", "KeepLargestBlock", "maybeExpandContentToEarlierTextBlocks"},
+		{"internal/filter/heuristic", "KeepLargestBlock", "maybeExpandContentToLaterTextBlocks"},
+		{"internal/filter/heuristic", "KeepLargestBlock", "isSibling"},
+		{"internal/filter/heuristic", "ExpandTitleToContent", "Process"},
+		{"internal/filter/heuristic", "LargeBlockAroundTagLevelToContent", "Process"},
+		{"internal/filter/heuristic", "ListAtEnd", "Process"},
+		{"internal/webdoc", "", "NewTextBlock"},
+		{"internal/webdoc", "TextBlock", "MergeNext"},
+		{"internal/webdoc", "TextBlock", "SetIsContent"},
+		{"internal/webdoc", "TextBlock", "AddLabels"},
+		{"internal/webdoc", "TextBlock", "RemoveLabels"},
+		{"internal/webdoc", "TextBlock", "HasLabel"},
+		{"internal/webdoc", "TextBlock", "OffsetBlocksStart"},
+		{"internal/webdoc", "TextBlock", "OffsetBlocksEnd"},
+		{"internal/webdoc", "TextBlock", "FirstNonWhitespaceTextNode"},
+		{"internal/webdoc", "TextBlock", "LastNonWhitespaceTextNode"},
+		{"internal/webdoc", "TextBlock", "calcLinkDensity"},
+		{"internal/webdoc", "TextBlock", "firstText"},
+		{"internal/webdoc", "TextBlock", "lastText"},
+		{"internal/webdoc", "TextDocument", "CountWordsInContent"},
+		{"internal/webdoc", "TextDocument", "ApplyToModel"},
+		{"internal/webdoc", "Document", "CreateTextDocument"},
+	})
 	// the prefix test whose success licenses `linkHref[lenPrefix:]` in PrevNextFinder.FindOutlink
 	x.bodyStmts(body, "internal/stringutil", "", "HasPrefixIgnoreCase", "hasPrefixIgnoreCaseBody", "C01", "C16")
 }
